@@ -27,7 +27,28 @@ static GLOBAL: Counting = Counting;
 static PARSE_ALLOCS: AtomicU64 = AtomicU64::new(0);
 /// C01: the input being parsed right now, so that a panic / abort inside the real crate can be attributed to it
 static mut CUR: (&str, u8, usize, [u8; 1024], usize) = ("", 0, 0, [0; 1024], 0);
+static TICK: AtomicU64 = AtomicU64::new(0);
+/// C01 ("never fails to terminate"): if one evaluation does not finish within 20 s the input being parsed is reported (gen = hang)
+/// and the search ends; evaluations normally take microseconds.
+fn install_watchdog() {
+    std::thread::spawn(|| {
+        let mut last = u64::MAX; let mut same = 0u32;
+        loop {
+            std::thread::sleep(std::time::Duration::from_secs(1));
+            let t = TICK.load(Ordering::Relaxed);
+            if t == last && t != 0 { same += 1; } else { same = 0; last = t; }
+            if same >= 20 {
+                #[allow(static_mut_refs)]
+                let (fam, cfg, cap, buf, n) = unsafe { (CUR.0, CUR.1, CUR.2, CUR.3, CUR.4) };
+                println!("{{\"stage\":\"any\",\"gen\":\"panic\",\"family\":\"{}\",\"oracle\":\"panic\",\"entry\":\"{}\",\"cfg\":{},\"cap\":{},\"input_hex\":\"{}\",\"input\":\"{}\",\"real\":\"HANG: the call had not returned after 20 s (evaluations take microseconds)\",\"expected\":\"returns normally\"}}",
+                    fam, fam, cfg, cap, hex(&buf[..n]), esc(&buf[..n]));
+                std::process::exit(3);
+            }
+        }
+    });
+}
 fn set_cur(family: &'static str, cfg: u8, cap: usize, buf: &[u8]) {
+    TICK.fetch_add(1, Ordering::Relaxed);
     unsafe {
         let n = buf.len().min(1024);
         CUR.0 = family; CUR.1 = cfg; CUR.2 = cap; CUR.4 = n;
@@ -845,7 +866,9 @@ fn search_history(ctx: &mut Ctx) {
 /// C20 (bounded stand-in for the paper step "work <= c * len"): time the real parser on adversarial families at 4 KiB and
 /// 64 KiB; linear work gives a ratio of about 16, quadratic work about 256.  Reported when the ratio exceeds 80 in the best
 /// of several repetitions (and the large run is long enough to be measurable).
+static mut CUR_FAMILY: &str = "";
 fn time_parse(kind: u8, cfgb: u8, buf: &[u8]) -> f64 {
+    TICK.fetch_add(1, Ordering::Relaxed);
     let pc = mkcfg(Cfg::from_bits(cfgb));
     let mut best = f64::MAX;
     // capacity large enough that a 64 KiB run of minimal header lines is parsed to its end (allocated outside the timed region)
@@ -908,6 +931,7 @@ fn search_timing() -> Vec<String> {
             let mut best = f64::MAX;
             let mut tb_best = 0.0;
             for _ in 0..3 {
+                unsafe { CUR_FAMILY = name; }
                 let (k, c, mut small) = family(name, 4096);
                 let (_, _, mut big) = family(name, 65536);
                 small.extend_from_slice(suffix); big.extend_from_slice(suffix);
@@ -929,11 +953,28 @@ fn main() {
     install_panic_hook();
     let args: Vec<String> = std::env::args().collect();
     if args.len() >= 2 && args[1] == "timing" {
+        // a call that does not return within 20 s: the family being timed is reported (work is certainly not linear) and the run ends
+        std::thread::spawn(|| {
+            let mut last = u64::MAX; let mut same = 0u32;
+            loop {
+                std::thread::sleep(std::time::Duration::from_secs(1));
+                let t = TICK.load(Ordering::Relaxed);
+                if t == last && t != 0 { same += 1; } else { same = 0; last = t; }
+                if same >= 20 {
+                    #[allow(static_mut_refs)]
+                    let name = unsafe { CUR_FAMILY };
+                    eprintln!("timing family={} ratio=99999.0 t64k=20.000000s", name);
+                    println!("{{\"stage\":\"any\",\"gen\":\"timing\",\"family\":\"timing\",\"oracle\":\"linear-work\",\"entry\":\"{}\",\"cfg\":0,\"cap\":8,\"input_hex\":\"\",\"input\":\"family {}\",\"real\":\"one parse call had not returned after 20 s\",\"expected\":\"about 16 (linear); reported above 80\"}}", name, name);
+                    std::process::exit(1);
+                }
+            }
+        });
         let f = search_timing();
         for l in &f { println!("{}", l); }
         std::process::exit(if f.is_empty() { 0 } else { 1 });
     }
     if args.len() >= 3 && args[1] == "search" {
+        install_watchdog();
         let mut ctx = Ctx { findings: vec![], evals: 0, max: 60, gen: "enum", hist: vec![] };
         let fam = args[2].as_str();
         if fam == "chunk" || fam == "all" { search_chunk(&mut ctx); }
